@@ -47,11 +47,14 @@ def kinds():
         # the region may be longer than the fixed-size child needs (non-canonical but accepted): the prefix decides, not sizeof
         "PrefixedFixed": (lambda: C.Prefixed(C.Byte, C.Int16ub), [258, 0]),
         "ArrayOfPrefixedFixed": (lambda: C.Array(2, C.Prefixed(C.Byte, C.Int16ub)), [[258, 0], [1, 2]]),
+        # counted elements that each carry their own length: measurable only element by element (if at all)
+        "PrefixedArrayOfPrefixed": (lambda: C.PrefixedArray(C.Byte, C.Prefixed(C.Byte, C.GreedyBytes)), [[b"ab", b"z"], [b"", b"q", b"rs"]]),
+        "PrefixedArrayNested": (lambda: C.PrefixedArray(C.Byte, C.PrefixedArray(C.Byte, C.Int16ub)), [[[1, 2], [3]], [[], [258]]]),
     }
 
 
 TRIPLE_ALPHABET = ["Byte", "CtxBytes", "Prefixed", "PrefixedFixed", "VarInt", "Const", "Default"]      # quick tier: triples over these only
-KIND_NAMES = ["Byte", "Short", "CtxBytes", "Prefixed", "PrefixedIncl", "PrefixedArray", "VarInt", "CString", "Const", "Default", "PrefixedArrayVar", "PrefixedCString", "PrefixedFixed", "ArrayOfPrefixedFixed"]
+KIND_NAMES = ["Byte", "Short", "CtxBytes", "Prefixed", "PrefixedIncl", "PrefixedArray", "VarInt", "CString", "Const", "Default", "PrefixedArrayVar", "PrefixedCString", "PrefixedFixed", "ArrayOfPrefixedFixed", "PrefixedArrayOfPrefixed", "PrefixedArrayNested"]
 
 
 def member_lists(tier):
